@@ -291,9 +291,33 @@ def forbidden_scan(pid):
     return hits
 
 
+def property_files(pid):
+    """Properties/<pid>.v first, then further statement files of the same property (Properties/<pid><Suffix>.v)"""
+    d = os.path.join(THEORIES, 'Properties')
+    extra = sorted(f[:-2] for f in os.listdir(d) if re.fullmatch(re.escape(pid) + r'[A-Z][A-Za-z]*\.v', f))
+    return [pid] + extra
+
+
 def proof_stage(pid):
-    """Re-check Properties/<pid>.v from its sources.  Returns a dict:
-    ok, obligations, discharged, theorems, axioms (name -> list of axioms), log, broken."""
+    """Re-check every statement file of the property (Properties/<pid>.v, Properties/<pid><Suffix>.v) from its
+    sources.  Returns a dict: ok, obligations, discharged, theorems, axioms (name -> list of axioms), log, broken."""
+    total = None
+    for name in property_files(pid):
+        info = proof_stage_file(name)
+        if total is None:
+            total = info
+        else:
+            total['obligations'] += info['obligations']
+            total['discharged'] += info['discharged']
+            total['theorems'] += info['theorems']
+            total['axioms'].update(info['axioms'])
+            total['log'] += info['log']
+            total['ok'] = total['ok'] and info['ok']
+            total['broken'] = total['broken'] or info['broken']
+    return total
+
+
+def proof_stage_file(pid):
     info = {'ok': False, 'obligations': 0, 'discharged': 0, 'theorems': [], 'axioms': {},
             'broken': None, 'log': ''}
     src = os.path.join(THEORIES, 'Properties', pid + '.v')
